@@ -959,6 +959,11 @@ class AbsInt:
                     dflt = ('mem', key)
                     if key.startswith('_') and key[1:].isdigit():
                         dflt = ('local', int(key[1:]))
+                    elif key not in env:
+                        # a borrow of a part of a known aggregate (`&(_7 as Some).0` of a decided Option): read the part
+                        nav = self._navigate(env, key)
+                        if nav is not None:
+                            dflt = nav
                     val = env.get(key, dflt)
                     continue
                 key = key + '.*'
@@ -992,6 +997,30 @@ class AbsInt:
                 key = key + '.?'
                 val = ('proj', val, repr(e))
         return val
+
+    def _navigate(self, env, key):
+        """value of a composite place key (`_7@Some.f0`) when the longest stored prefix is a known aggregate"""
+        toks = re.findall(r'(^_\d+|@\w+|\.f\d+)', key)
+        if not toks or ''.join(toks) != key or len(toks) < 2:
+            return None
+        for cut in range(len(toks) - 1, 0, -1):
+            pre = ''.join(toks[:cut])
+            if pre in env:
+                val = env[pre]
+                for tk in toks[cut:]:
+                    if not isinstance(val, tuple) or not val:
+                        return None
+                    if tk.startswith('@'):
+                        if val[0] == 'agg' and val[2] == tk[1:]:
+                            continue
+                        return None
+                    i = int(tk[2:])
+                    if val[0] == 'agg' and i < len(val[3]):
+                        val = val[3][i]
+                    else:
+                        return None
+                return val
+        return None
 
     def resolve_key(self, env, p):
         """key under which a write to place p is stored (through known references)"""
